@@ -1,6 +1,6 @@
 (* C04 — Sharing through the node cache is transparent and effective.  Property theorems only. *)
 From CsModel Require Extracted.
-From CsModel Require Import BuilderSpec BuilderProofs.
+From CsModel Require Import BuilderSpec BuilderProofs CacheShare.
 
 Theorem C04_cache_transparent : forall static_text (H : list hw -> N) threshold debug c ops t,
   CacheInv static_text H c -> Forall (WfEvent static_text) ops -> parse static_text ops = Some t ->
@@ -28,6 +28,34 @@ Theorem C04_lookup_sound : forall static_text (H : list hw -> N) threshold c k c
   WfGreen static_text H (c_strs c) g /\ CacheInv static_text H c' /\ c_strs c' = c_strs c.
 Proof. exact cache_node_sound. Qed.
 Print Assumptions C04_lookup_sound.
+
+(* effectiveness: feeding the same (kind, text) to the builder again — at any later stage of the same
+   cache, whatever was built in between — pushes the very same token element (same allocation) and
+   leaves the cache as it is *)
+Theorem C04_tokens_shared : forall static_text debug s k t s1 s2,
+  b_token static_text debug s k t = Ok s1 -> Later (b_cache s1) (b_cache s2) ->
+  exists s3, b_token static_text debug s2 k t = Ok s3 /\ hd_error (b_children s3) = hd_error (b_children s1) /\ b_cache s3 = b_cache s2.
+Proof. exact token_shared. Qed.
+Print Assumptions C04_tokens_shared.
+
+(* ... and finishing a small node of the same kind over the same children again yields the very same
+   node element and allocates nothing *)
+Theorem C04_small_nodes_shared : forall (H : list hw -> N) threshold s s1 s2,
+  b_finish_node H threshold HeadAndChildren s = Ok s1 -> (length (pending_children s) <= threshold)%nat ->
+  pending_kind s2 = pending_kind s -> pending_children s2 = pending_children s ->
+  (match b_parents s2 with (_, first) :: _ => (first <= length (b_children s2))%nat | [] => True end) ->
+  CacheExt (b_cache s1) (b_cache s2) ->
+  exists s3, b_finish_node H threshold HeadAndChildren s2 = Ok s3 /\ hd_error (b_children s3) = hd_error (b_children s1) /\ b_cache s3 = b_cache s2.
+Proof. exact node_shared. Qed.
+Print Assumptions C04_small_nodes_shared.
+
+(* with a hash under which everything collides two different small nodes stay two nodes and an equal
+   one is shared; with the lookup before the repair of F1 the different node is lost *)
+Theorem C04_colliding_nodes_kept_apart :
+  (exists ida idb, ida <> idb /\ ex_ids HeadAndChildren = Some [(ida, [97]); (idb, [98]); (ida, [97])]) /\
+  (exists ida, ex_ids HeadOnly = Some [(ida, [97]); (ida, [97]); (ida, [97])]).
+Proof. split; [exact ex_colliding_nodes_kept_apart|exact ex_head_only_merges]. Qed.
+Print Assumptions C04_colliding_nodes_kept_apart.
 
 (* every source fact this property's model depends on was found by the translator in the current
    source (otherwise the model would be running on the values the proofs were written for) *)
